@@ -385,6 +385,22 @@ def decl_rule(syn, prop, rule="C07.R2"):
                    fn["file"], e["line"])
     if not done:
         r.fail(prop, "anchor-missing decl template", "no template defining fn decl / fn decl_concrete", fn["file"], fn["line"])
+    # the placeholder types themselves: decl() renders the item at them, so every rendering a field can ask for
+    # (name, inline, inline_flattened) must answer with the parameter's name - a panic there makes decl() of
+    # `struct G<T> { #[ts(inline)] v: Vec<T> }` panic although G::<i32>::inline() works
+    gf = syn.fn("DerivedTS::generate_generic_types", "macros/src/lib.rs")
+    for e in (templates(gf) if gf else []):
+        g = _fn_groups(e["tokens"])
+        if "name" not in g:
+            continue
+        for m in ("name", "inline", "inline_flattened"):
+            body = " ".join(t for t in S.flat(g.get(m, [])) if isinstance(t, str))
+            total = bool(body) and "panic !" not in body and "unimplemented !" not in body and "todo !" not in body
+            r.inst(template="placeholder fn " + m, body=body[-60:], total=total)
+            if not total:
+                r.fail(prop, "placeholder-rendering-partial %s" % m,
+                       "the placeholder type of a generic parameter %s in %s(): decl() of a generic item that renders a parameter that way panics" % ("panics" if body else "has no body", m),
+                       gf["file"], e["line"])
     r.floor = 3
     return r
 
@@ -476,6 +492,16 @@ def generics_rule(syn, prop, rule="C07.R1"):
         if not ok:
             r.fail(prop, "concrete-not-unioned %s::merge" % x, "`concrete` of several #[ts(..)] attributes is not the union of both maps (%s): parameters named in a later attribute would stay generic" % val,
                    fn["file"] if fn else None, fn["line"] if fn else None)
+        # the same union inside one list: `#[ts(concrete(A = i32), concrete(B = u8))]`
+        t = syn.tables().get(x)
+        arm = [a for a in (t["arms"] if t else []) if "concrete" in a["keys"]]
+        expr = S.squash(arm[0]["expr"]) if arm else None
+        acc = expr is not None and re.search(r"out\.concrete\.(extend|append)\(", expr) is not None
+        r.inst(parser=x, key="concrete", arm=expr, accumulates=acc)
+        if arm and not acc:
+            r.fail(prop, "concrete-overwritten-in-list %s" % x,
+                   "the parser arm `%s` replaces the map: in `#[ts(concrete(A = i32), concrete(B = u8))]` the second entry drops the first and A stays generic" % arm[0]["expr"],
+                   t["file"], arm[0]["line"])
     r.floor = 9
     return r
 
@@ -1034,8 +1060,7 @@ def quoting_rule(syn, prop, rule="C04.R2"):
 
 def unraw_rule(syn, prop, rule="C04.R3"):
     r = Result(rule, "every identifier turned into text for TypeScript output goes through IdentExt::unraw() or to_ts_ident() (r#type is emitted as `type`)")
-    exempt = {("utils::format_generics", "type_param.ident"): "type-parameter identifier (cannot be raw)",
-              ("DerivedTS::generate_export_test", "rust_ty"): "name of the generated Rust test fn; `r#` is stripped by replace",
+    exempt = {("DerivedTS::generate_export_test", "rust_ty"): "name of the generated Rust test fn; `r#` is stripped by replace",
               ("utils::to_ts_ident", "ident"): "this is the un-raw routine itself"}
     for fn in syn.fns:
         if not (fn["file"].startswith("macros/src/types/") or fn["file"] in ("macros/src/lib.rs", "macros/src/utils.rs")):
@@ -1051,6 +1076,15 @@ def unraw_rule(syn, prop, rule="C04.R3"):
             r.inst(fn=fn["qual"], expr=recv + ".to_string()", where="%s:%s" % (fn["file"], e["line"]), unrawed=ok, exempt=ex)
             if not ok and not ex:
                 r.fail(prop, "raw-identifier-text %s %s" % (fn["qual"], recv), "`%s.to_string()` without unraw(): a raw identifier would appear as `r#..` in TypeScript" % recv, fn["file"], e["line"])
+        # `stringify!(#ident)` inside a template prints the identifier as written, `r#` included
+        for e in templates(fn):
+            fl = [t for t in S.flat(e["tokens"]) if isinstance(t, str)]
+            for i in range(len(fl) - 4):
+                if fl[i:i + 4] == ["stringify", "!", "(", "#"] and any("to_owned" in x or "String" in x for x in fl[i:i + 12]):
+                    r.inst(fn=fn["qual"], expr="stringify!(#%s)" % fl[i + 4], where="%s:%s" % (fn["file"], e["line"]), unrawed=False, exempt=None)
+                    r.fail(prop, "raw-identifier-text %s stringify!(#%s)" % (fn["qual"], fl[i + 4]),
+                           "`stringify!(#%s)` becomes TypeScript text: for `struct G<r#type>` the placeholder's name is `r#type`" % fl[i + 4], fn["file"], e["line"])
+                    break
     r.floor = 6
     return r
 
@@ -1756,6 +1790,37 @@ def _param_leaf(fn, arms):
 def underscore_walker_rule(syn, prop, rule="C14.R8"):
     return type_walker_rule(syn, prop, rule, "replace_underscore", "attr/field.rs", "replaced by the field's own type", _infer_leaf,
                             "`_` in `#[ts(as = \"..\")]` stands for the field's type: replace_underscore substitutes it at every depth (array, none-delimited group from a `$t:ty` fragment, paren, reference, slice, tuple, path arguments)")
+
+
+def where_clause_rule(syn, prop, rule="C16.R11"):
+    """what the generated impl mentions under `as TS`, the where-clause bounds"""
+    r = Result(rule, "the generated where-clause bounds (a) every type parameter that is not made concrete - name() mentions all of them, whether a field uses them or not - and (b) a projection `<X as Tr>::Assoc` itself when X mentions a type parameter, besides the parameters inside X (the derive writes `<F as TS>::OptionInnerType` for optional fields)")
+    wf = syn.fn("generate_where_clause", "macros/src/lib.rs")
+    uf = syn.fn("used_type_params", "macros/src/lib.rs")
+    if wf is None or uf is None:
+        r.fail(prop, "anchor-missing generate_where_clause", "not found")
+        return r
+    txt = S.squash(json.dumps([{k: v for k, v in e.items() if k != "ctx"} for e in wf["events"]]))
+    all_params = "type_params()" in txt and "concrete" in txt and re.search(r"contains_key", txt) is not None and any("concrete" in S.squash(p["name"]) or "concrete" in S.squash(p["ty"]) for p in wf["params"])
+    r.inst(fn=wf["qual"], bounds_every_named_parameter=bool(all_params))
+    if not all_params:
+        r.fail(prop, "where-clause-omits-unused-params generate_where_clause",
+               "only parameters found in field types are bounded, but name() uses `<T as TS>::name()` for every non-concrete parameter: `struct H<T> { id: u32, #[ts(skip)] m: PhantomData<T> }` does not compile (E0277 `T: TS`)",
+               wf["file"], wf["line"])
+    ms = [e for e in S.events(uf, "match") if S.squash(e["scrut"]) == "ty"]
+    proj = False
+    for a in (ms[0]["arms"] if ms else []):
+        pat = S.squash(a["pat"])
+        if "Type::Path" in pat and "qself" in pat and "qself:None" not in pat:
+            body = S.squash(a["body"])
+            proj = re.search(r"\.insert\(ty\)", body) is not None
+    r.inst(fn=uf["qual"], bounds_projection_itself=proj)
+    if not proj:
+        r.fail(prop, "where-clause-omits-projection used_type_params",
+               "for `<X as Tr>::Assoc` only the parameters inside X are bounded, not the projection: `#[ts(optional_fields)] struct O<T> { t: T }` renders `<<T as TS>::OptionInnerType as TS>::name()` and does not compile",
+               uf["file"], uf["line"])
+    r.floor = 2
+    return r
 
 
 def type_param_walker_rule(syn, prop, rule="C16.R8"):
